@@ -8,6 +8,7 @@ import (
 	"os"
 	"path/filepath"
 	"regexp"
+	"sort"
 	"strconv"
 	"strings"
 
@@ -426,4 +427,746 @@ func loopVarRule(id string, pkgs ...string) func(*eng.Ctx) {
 		}
 		c.Ok(R, "scope#scanned", token.NoPos, fmt.Sprintf("%d loops with := variables scanned in %s", loops, strings.Join(pkgs, ", ")))
 	}
+}
+
+// ---------------------------------------------------------------------------------------------------------------
+// R2.23 fixed tables are indexed inside their literal length.
+
+// globalLiteralLen: the number of elements of the composite literal a package-level slice or array is initialised with
+// (path selects nested rows by constant index; -1 = the shortest row), when nothing else in the module assigns to the
+// variable or appends to it.
+func globalLiteralLen(c *eng.Ctx, g *ssa.Global, path []int) (int, bool) {
+	obj, ok := g.Object().(*types.Var)
+	if !ok || g.Pkg == nil {
+		return 0, false
+	}
+	// never written outside the package initialiser
+	init := g.Pkg.Func("init")
+	for _, fn := range c.P.ModuleFuncs() {
+		if fn == init || fn.Pkg != g.Pkg && !obj.Exported() {
+			continue
+		}
+		written := false
+		eng.Instrs(fn, true, func(in ssa.Instruction) {
+			if st, ok := in.(*ssa.Store); ok && st.Addr == ssa.Value(g) {
+				written = true
+			}
+		})
+		if written {
+			return 0, false
+		}
+	}
+	var lit *ast.CompositeLit
+	for _, pk := range c.P.Pkgs {
+		if pk.Types != obj.Pkg() {
+			continue
+		}
+		for _, f := range pk.Syntax {
+			for _, d := range f.Decls {
+				gd, ok := d.(*ast.GenDecl)
+				if !ok {
+					continue
+				}
+				for _, sp := range gd.Specs {
+					vs, ok := sp.(*ast.ValueSpec)
+					if !ok {
+						continue
+					}
+					for i, nm := range vs.Names {
+						if pk.TypesInfo.Defs[nm] == types.Object(obj) && i < len(vs.Values) {
+							lit, _ = vs.Values[i].(*ast.CompositeLit)
+						}
+					}
+				}
+			}
+		}
+		if lit == nil {
+			return 0, false
+		}
+		info := pk.TypesInfo
+		var lenOf func(l *ast.CompositeLit, path []int) (int, bool)
+		elems := func(l *ast.CompositeLit) (map[int]ast.Expr, int, bool) {
+			out := map[int]ast.Expr{}
+			next, max := 0, 0
+			for _, e := range l.Elts {
+				val := e
+				if kv, ok := e.(*ast.KeyValueExpr); ok {
+					tv, ok := info.Types[kv.Key]
+					if !ok || tv.Value == nil {
+						return nil, 0, false
+					}
+					k, exact := constantInt(tv)
+					if !exact {
+						return nil, 0, false
+					}
+					next = k
+					val = kv.Value
+				}
+				out[next] = val
+				next++
+				if next > max {
+					max = next
+				}
+			}
+			return out, max, true
+		}
+		lenOf = func(l *ast.CompositeLit, path []int) (int, bool) {
+			switch info.TypeOf(l).Underlying().(type) {
+			case *types.Slice, *types.Array:
+			default:
+				return 0, false
+			}
+			el, n, ok := elems(l)
+			if !ok {
+				return 0, false
+			}
+			if at, isArr := info.TypeOf(l).Underlying().(*types.Array); isArr {
+				n = int(at.Len())
+			}
+			if len(path) == 0 {
+				return n, true
+			}
+			best := -1
+			for i := 0; i < n; i++ {
+				if path[0] >= 0 && path[0] != i {
+					continue
+				}
+				e, has := el[i]
+				if !has {
+					// a missing row of an array of slices is nil (length 0); of arrays, full length
+					if _, isArr := info.TypeOf(l).Underlying().(*types.Array); isArr {
+						return 0, false
+					}
+					continue
+				}
+				sub, ok := e.(*ast.CompositeLit)
+				if !ok {
+					return 0, false
+				}
+				m, ok := lenOf(sub, path[1:])
+				if !ok {
+					return 0, false
+				}
+				if best < 0 || m < best {
+					best = m
+				}
+			}
+			if best < 0 {
+				return 0, false
+			}
+			return best, true
+		}
+		return lenOf(lit, path)
+	}
+	return 0, false
+}
+
+func constantInt(tv types.TypeAndValue) (int, bool) {
+	if tv.Value == nil {
+		return 0, false
+	}
+	s := tv.Value.ExactString()
+	n, err := strconv.Atoi(s)
+	return n, err == nil
+}
+
+// tableBase: base of an index operation -> (global, row path) when it is a package-level table or a row of one.
+func tableBase(v ssa.Value) (*ssa.Global, []int, bool) {
+	switch x := v.(type) {
+	case *ssa.Global:
+		return x, nil, true
+	case *ssa.UnOp:
+		if x.Op != token.MUL {
+			return nil, nil, false
+		}
+		switch a := x.X.(type) {
+		case *ssa.Global:
+			return a, nil, true
+		case *ssa.IndexAddr:
+			g, path, ok := tableBase(a.X)
+			if !ok {
+				return nil, nil, false
+			}
+			row := -1
+			if k, isC := eng.ConstInt(a.Index); isC {
+				row = int(k)
+			}
+			return g, append(append([]int{}, path...), row), true
+		}
+	case *ssa.IndexAddr:
+		// &table[i] used as the base of a further index (array of arrays)
+		g, path, ok := tableBase(x.X)
+		if !ok {
+			return nil, nil, false
+		}
+		row := -1
+		if k, isC := eng.ConstInt(x.Index); isC {
+			row = int(k)
+		}
+		return g, append(append([]int{}, path...), row), true
+	}
+	return nil, nil, false
+}
+
+// R2.23 [C02]
+func ruleFixedTableIndex(c *eng.Ctx) {
+	const R = "R2.23-FIXED-TABLE-INDEX"
+	c.Rule(R, "an element of a package-level table (array or slice literal that nothing reassigns) is selected only with an index proven inside the literal's length: a constant, the index of a range over the table, a value compared with the length or with constants, a remainder, quotient, mask or shift whose range fits, or a byte for a 256-entry table. A number from the document that is larger than the table panics otherwise", 4, 1)
+	boundedProg = c.P
+	n := 0
+	for _, fn := range c.P.ModuleFuncs() {
+		if fn.Pkg == nil || fn.Blocks == nil {
+			continue
+		}
+		if fn.Name() == "init" && fn.Parent() == nil {
+			continue
+		}
+		eng.Instrs(fn, true, func(in ssa.Instruction) {
+			var idx, base ssa.Value
+			switch x := in.(type) {
+			case *ssa.IndexAddr:
+				idx, base = x.Index, x.X
+			case *ssa.Index:
+				idx, base = x.Index, x.X
+			default:
+				return
+			}
+			if _, isMap := base.Type().Underlying().(*types.Map); isMap {
+				return
+			}
+			if bt, ok := base.Type().Underlying().(*types.Basic); ok && bt.Info()&types.IsString != 0 {
+				return
+			}
+			L, gname := 0, ""
+			bt := base.Type().Underlying()
+			if pt, ok := bt.(*types.Pointer); ok {
+				bt = pt.Elem().Underlying()
+			}
+			if at, isArr := bt.(*types.Array); isArr {
+				// an array of any origin: the length is in the type
+				L, gname = int(at.Len()), "the array "+base.Name()
+				if g, _, ok := tableBase(base); ok {
+					gname = g.Name()
+				} else if fr, ok := eng.AsField(base); ok {
+					gname = "the array ." + fr.Field
+				}
+			} else {
+				g, path, ok := tableBase(base)
+				if !ok || g.Pkg == nil || !strings.HasPrefix(g.Pkg.Pkg.Path(), eng.ModPath) {
+					return
+				}
+				l, ok := globalLiteralLen(c, g, path)
+				if !ok {
+					return
+				}
+				L, gname = l, g.Name()
+			}
+			if k, isC := eng.ConstInt(idx); isC {
+				if k < 0 || int(k) >= L {
+					c.Viol(R, fmt.Sprintf("%s#%s[%d]", eng.FuncName(in.Parent()), gname, k), in.Pos(), fmt.Sprintf("constant index %d is outside the %d entries of %s", k, L, gname))
+				}
+				return
+			}
+			n++
+			host := in.Parent()
+			key := fmt.Sprintf("%s#%s[%s]", eng.FuncName(host), gname, idx.Name())
+			// the index of a range over the same table (or over one of equal or smaller constant length)
+			if rangeIndexOf(idx, base, L) {
+				c.Ok(R, key, in.Pos(), "range index of the table")
+				return
+			}
+			lo := bounded(host, idx, 0, false, in.Block(), 0)
+			hi := bounded(host, idx, int64(L-1), true, in.Block(), 0) || lessThanLenOf(host, idx, base, in.Block())
+			if os.Getenv("VDEBUG") == "tab" {
+				fmt.Fprintf(os.Stderr, "TAB %s %s len=%d lo=%v hi=%v idx=%s\n", c.P.Pos(in.Pos()), key, L, lo, hi, idx)
+			}
+			var miss []string
+			if !lo {
+				miss = append(miss, "index >= 0")
+			}
+			if !hi {
+				miss = append(miss, fmt.Sprintf("index <= %d", L-1))
+			}
+			c.Check(len(miss) == 0, R, key, in.Pos(), fmt.Sprintf("index proven inside the %d entries", L), fmt.Sprintf("%s has %d entries and the index is not proven inside them (%s): a larger or negative number panics with index out of range", gname, L, strings.Join(miss, ", ")))
+		})
+	}
+	if n == 0 {
+		c.Ok(R, "module#tables", token.NoPos, "no package-level table is indexed by a computed value")
+	}
+}
+
+// rangeIndexOf: idx is the induction variable of a loop that runs from 0 while idx < len(base') with base' the same
+// table, or while idx < K with K <= L.
+func rangeIndexOf(idx, base ssa.Value, L int) bool {
+	ph, ok := idx.(*ssa.Phi)
+	if !ok || len(ph.Edges) != 2 {
+		return false
+	}
+	start, isC := eng.ConstInt(ph.Edges[0])
+	if !isC {
+		if k2, ok2 := eng.ConstInt(ph.Edges[1]); ok2 {
+			start, isC = k2, true
+			_ = start
+		}
+	}
+	if !isC || start < 0 {
+		// rotated range loops start at -1 and increment before use
+		if !(isC && start == -1) {
+			return false
+		}
+	}
+	// the loop condition compares the phi (or phi+1) with a length
+	for _, r := range *ph.Referrers() {
+		check := func(b *ssa.BinOp, inc int64) bool {
+			if b.Op != token.LSS {
+				return false
+			}
+			if k, isK := eng.ConstInt(b.Y); isK {
+				return int(k) <= L
+			}
+			if call, ok := b.Y.(*ssa.Call); ok {
+				if bi, ok := call.Call.Value.(*ssa.Builtin); ok && bi.Name() == "len" {
+					g1, p1, ok1 := tableBase(call.Call.Args[0])
+					g2, p2, ok2 := tableBase(base)
+					return ok1 && ok2 && g1 == g2 && fmt.Sprint(p1) == fmt.Sprint(p2)
+				}
+			}
+			return false
+		}
+		if b, ok := r.(*ssa.BinOp); ok {
+			if b.X == ssa.Value(ph) && check(b, 0) {
+				if _, isIf := condIf(b); isIf {
+					return start >= 0
+				}
+			}
+			if b.Op == token.ADD && b.X == ssa.Value(ph) {
+				if one, ok := eng.ConstInt(b.Y); ok && one == 1 && b == idx {
+					return false
+				}
+			}
+		}
+	}
+	return false
+}
+
+func condIf(cond ssa.Value) (*ssa.If, bool) {
+	for _, r := range *cond.Referrers() {
+		if i, ok := r.(*ssa.If); ok {
+			return i, true
+		}
+	}
+	return nil, false
+}
+
+// lessThanLenOf: idx < len(T) with T the same table is established on the way to at.
+func lessThanLenOf(fn *ssa.Function, idx, base ssa.Value, at *ssa.BasicBlock) bool {
+	g2, p2, ok2 := tableBase(base)
+	if !ok2 {
+		return false
+	}
+	return eng.GuardedBy(fn, at, func(ft eng.Fact) bool {
+		op, x, y, ok := ft.Cmp()
+		if !ok {
+			return false
+		}
+		if eng.SameValue(y, idx) && !eng.SameValue(x, idx) {
+			x, y = y, x
+			op = eng.Swap(op)
+		}
+		if !eng.SameValue(x, idx) || op != token.LSS {
+			return false
+		}
+		call, isCall := y.(*ssa.Call)
+		if !isCall {
+			return false
+		}
+		bi, isB := call.Call.Value.(*ssa.Builtin)
+		if !isB || bi.Name() != "len" {
+			return false
+		}
+		g1, p1, ok1 := tableBase(call.Call.Args[0])
+		return ok1 && g1 == g2 && fmt.Sprint(p1) == fmt.Sprint(p2)
+	})
+}
+
+// ---------------------------------------------------------------------------------------------------------------
+// R3.12 rendering methods leave the reader as they found it.
+
+var documentReaderPkgs = map[string]bool{"docx": true, "odt": true, "pptx": true, "xlsx": true, "epubdoc": true, "htmldoc": true}
+
+// R3.12 [C03, C16, C19]
+func ruleRenderLeavesReader(c *eng.Ctx) {
+	const R = "R3.12-RENDER-LEAVES-READER"
+	c.Rule(R, "the exported rendering methods of the document readers (every exported method of docx/odt/pptx/xlsx/epubdoc/htmldoc Reader other than Close) write nothing through the receiver, neither themselves nor through a callee: a counter, memo or compacted slice kept on the reader makes the second call (or the call in another mode) differ from the first. Writes listed as lazily filled caches are accepted by name", 20, 1)
+	eff := eng.EffectsOf(c.P)
+	n := 0
+	for _, fn := range c.P.ModuleFuncs() {
+		if fn.Pkg == nil || fn.Parent() != nil || fn.Signature.Recv() == nil {
+			continue
+		}
+		sp := eng.ShortPath(fn.Pkg.Pkg.Path())
+		if !documentReaderPkgs[sp] && !strings.Contains(sp, eng.PositivePkg) {
+			continue
+		}
+		obj, ok := fn.Object().(*types.Func)
+		if !ok || !obj.Exported() || obj.Name() == "Close" {
+			continue
+		}
+		rt := fn.Signature.Recv().Type()
+		if pt, ok := rt.(*types.Pointer); ok {
+			rt = pt.Elem()
+		}
+		nt, ok := rt.(*types.Named)
+		if !ok || nt.Obj().Name() != "Reader" {
+			continue
+		}
+		n++
+		var bad []string
+		// the items of the method: its own writes and its calls that write through the receiver; calls of another
+		// exported method of the reader are judged there
+		type item struct {
+			in     ssa.Instruction
+			writes []paramWrite
+		}
+		var items []item
+		for _, b := range fn.Blocks {
+			for _, in := range b.Instrs {
+				if ci, ok := in.(ssa.CallInstruction); ok {
+					if cal := eng.StaticCallee(ci); cal != nil {
+						if o, ok := cal.Object().(*types.Func); ok && o.Exported() && cal.Signature.Recv() != nil && types.Identical(cal.Signature.Recv().Type(), fn.Signature.Recv().Type()) {
+							continue
+						}
+					}
+				}
+				one := &ssa.Function{}
+				_ = one
+				ws := instrWrites(c.P, eff, fn, in, 0)
+				if len(ws) > 0 {
+					items = append(items, item{in, ws})
+				}
+			}
+		}
+		fresh := func(w paramWrite) bool {
+			st, ok := w.in.(*ssa.Store)
+			if !ok {
+				return false
+			}
+			switch v := st.Val.(type) {
+			case *ssa.Const, *ssa.MakeMap:
+				return true
+			case *ssa.MakeSlice:
+				_ = v
+				return true
+			}
+			return false
+		}
+		before := func(a, b ssa.Instruction) bool {
+			if a.Block() == b.Block() {
+				for _, in := range a.Block().Instrs {
+					if in == a {
+						return true
+					}
+					if in == b {
+						return false
+					}
+				}
+			}
+			return a.Block().Dominates(b.Block())
+		}
+		root := func(w paramWrite) string {
+			if len(w.path) == 0 {
+				return "*"
+			}
+			return w.path[0]
+		}
+		for _, it := range items {
+			for _, w := range it.writes {
+				if memoWrite(w) || fresh(w) {
+					continue
+				}
+				// a field that this method sets to a fresh value before the item runs is scratch state of the call
+				reset := false
+				for _, jt := range items {
+					if jt.in == it.in || !before(jt.in, it.in) {
+						continue
+					}
+					all, touches := true, false
+					for _, x := range jt.writes {
+						if root(x) == root(w) {
+							touches = true
+							if !fresh(x) {
+								all = false
+							}
+						}
+					}
+					if all && touches {
+						reset = true
+					}
+				}
+				if reset {
+					continue
+				}
+				bad = append(bad, c.P.Pos(w.in.Pos())+" "+w.how+" in "+eng.FuncName(w.fn)+" (field "+strings.Join(w.path, ".")+")")
+			}
+		}
+		sort.Strings(bad)
+		if os.Getenv("VDEBUG") == "rlr" && len(bad) > 0 {
+			fmt.Fprintf(os.Stderr, "RLR %s: %s\n", eng.FuncName(fn), strings.Join(bad, " ; "))
+		}
+		c.Check(len(bad) == 0, R, eng.FuncName(fn)+"#receiver-writes", fn.Pos(), "no write through the reader", "the method writes through the reader ("+strings.Join(bad, "; ")+"): what it leaves behind changes the next call on the same reader")
+	}
+}
+
+type paramWrite struct {
+	in   ssa.Instruction
+	fn   *ssa.Function
+	how  string
+	path []string // field names from the parameter to the written memory (outermost first)
+}
+
+// pathFromParam lists the fields selected on the way from a parameter to the address or reference v.
+func pathFromParam(v ssa.Value) []string {
+	var rev []string
+	for i := 0; i < 40 && v != nil; i++ {
+		switch x := v.(type) {
+		case *ssa.FieldAddr:
+			if pt, ok := x.X.Type().Underlying().(*types.Pointer); ok {
+				if st, ok := pt.Elem().Underlying().(*types.Struct); ok {
+					rev = append(rev, st.Field(x.Field).Name())
+				}
+			}
+			v = x.X
+		case *ssa.Field:
+			if st, ok := x.X.Type().Underlying().(*types.Struct); ok {
+				rev = append(rev, st.Field(x.Field).Name())
+			}
+			v = x.X
+		case *ssa.IndexAddr:
+			v = x.X
+		case *ssa.Slice:
+			v = x.X
+		case *ssa.UnOp:
+			v = x.X
+		case *ssa.Lookup:
+			v = x.X
+		case *ssa.ChangeType:
+			v = x.X
+		case *ssa.Convert:
+			v = x.X
+		case *ssa.MakeInterface:
+			v = x.X
+		case *ssa.TypeAssert:
+			v = x.X
+		case *ssa.Extract:
+			v = x.Tuple
+		case *ssa.Phi:
+			if len(x.Edges) == 0 {
+				v = nil
+			} else {
+				v = x.Edges[0]
+			}
+		case *ssa.Call:
+			if b, ok := x.Call.Value.(*ssa.Builtin); ok && b.Name() == "append" && len(x.Call.Args) > 0 {
+				v = x.Call.Args[0]
+			} else {
+				v = nil
+			}
+		default:
+			v = nil
+		}
+	}
+	out := make([]string, 0, len(rev))
+	for i := len(rev) - 1; i >= 0; i-- {
+		out = append(out, rev[i])
+	}
+	return out
+}
+
+// paramWrites lists the instructions (in fn or, through calls that pass memory rooted at the parameter on, in callees)
+// that write through memory rooted at parameter idx of fn.
+func paramWrites(p *eng.Prog, eff *eng.Effects, fn *ssa.Function, idx int, depth int, seen map[*ssa.Function]bool) []paramWrite {
+	var out []paramWrite
+	if fn == nil || fn.Blocks == nil || depth > 6 {
+		return nil
+	}
+	key := fn
+	if seen[key] {
+		return nil
+	}
+	seen[key] = true
+	for _, b := range fn.Blocks {
+		for _, in := range b.Instrs {
+			switch x := in.(type) {
+			case *ssa.Store:
+				if r := eff.RootOf(x.Addr); r.Param == idx {
+					out = append(out, paramWrite{in, fn, "store", pathFromParam(x.Addr)})
+				}
+			case *ssa.MapUpdate:
+				if r := eff.RootOf(x.Map); r.Param == idx {
+					out = append(out, paramWrite{in, fn, "map update", pathFromParam(x.Map)})
+				}
+			case ssa.CallInstruction:
+				cc := x.Common()
+				if bi, ok := cc.Value.(*ssa.Builtin); ok {
+					switch bi.Name() {
+					case "copy", "delete", "clear", "append":
+						if len(cc.Args) > 0 && eff.RootOf(cc.Args[0]).Param == idx {
+							how := bi.Name()
+							if how == "append" {
+								if eng.ShortenedSlice(cc.Args[0]) == nil {
+									continue
+								}
+								how = "append onto a shortened re-slice of a slice owned by the receiver (overwrites its backing array)"
+							}
+							out = append(out, paramWrite{in, fn, how, pathFromParam(cc.Args[0])})
+						}
+					}
+					continue
+				}
+				for _, cal := range p.Callees(x) {
+					wp := eff.WritesParam[cal]
+					args := cc.Args
+					if cc.IsInvoke() {
+						args = append([]ssa.Value{cc.Value}, cc.Args...)
+					}
+					for i, a := range args {
+						if wp[i] && eff.RootOf(a).Param == idx {
+							if cal.Blocks == nil || !eng.InModule(cal) {
+								out = append(out, paramWrite{in, fn, "call " + eng.FuncName(cal) + " writes through it", pathFromParam(a)})
+								continue
+							}
+							pre := pathFromParam(a)
+							for _, w := range paramWrites(p, eff, cal, i, depth+1, seen) {
+								w.path = append(append([]string{}, pre...), w.path...)
+								out = append(out, w)
+							}
+						}
+					}
+				}
+			}
+		}
+	}
+	return out
+}
+
+// instrWrites: what one instruction of fn writes through memory rooted at fn's parameter idx (directly or in callees).
+func instrWrites(p *eng.Prog, eff *eng.Effects, fn *ssa.Function, in ssa.Instruction, idx int) []paramWrite {
+	var out []paramWrite
+	switch x := in.(type) {
+	case *ssa.Store:
+		if r := eff.RootOf(x.Addr); r.Param == idx {
+			out = append(out, paramWrite{in, fn, "store", pathFromParam(x.Addr)})
+		}
+	case *ssa.MapUpdate:
+		if r := eff.RootOf(x.Map); r.Param == idx {
+			out = append(out, paramWrite{in, fn, "map update", pathFromParam(x.Map)})
+		}
+	case ssa.CallInstruction:
+		cc := x.Common()
+		if bi, ok := cc.Value.(*ssa.Builtin); ok {
+			switch bi.Name() {
+			case "copy", "delete", "clear", "append":
+				if len(cc.Args) > 0 && eff.RootOf(cc.Args[0]).Param == idx {
+					how := bi.Name()
+					if how == "append" {
+						if eng.ShortenedSlice(cc.Args[0]) == nil {
+							return out
+						}
+						how = "append onto a shortened re-slice of a slice owned by the receiver (overwrites its backing array)"
+					}
+					out = append(out, paramWrite{in, fn, how, pathFromParam(cc.Args[0])})
+				}
+			}
+			return out
+		}
+		for _, cal := range p.Callees(x) {
+			wp := eff.WritesParam[cal]
+			args := cc.Args
+			if cc.IsInvoke() {
+				args = append([]ssa.Value{cc.Value}, cc.Args...)
+			}
+			for i, a := range args {
+				if wp[i] && eff.RootOf(a).Param == idx {
+					pre := pathFromParam(a)
+					if cal.Blocks == nil || !eng.InModule(cal) {
+						out = append(out, paramWrite{in, fn, "call " + eng.FuncName(cal) + " writes through it", pre})
+						continue
+					}
+					for _, w := range paramWrites(p, eff, cal, i, 1, map[*ssa.Function]bool{}) {
+						w.path = append(append([]string{}, pre...), w.path...)
+						out = append(out, w)
+					}
+				}
+			}
+		}
+	}
+	return out
+}
+
+// memoWrite: the write fills a lazily computed value exactly once: a store to a field (or an entry of a map held in a
+// field) that happens only after the same function found the field nil (or the key absent), and the function hands
+// the stored value back. Calls after the first one find the value and return it without writing.
+func memoWrite(w paramWrite) bool {
+	fn := w.fn
+	var field eng.FieldRef
+	var mapKey ssa.Value
+	var stored ssa.Value
+	switch x := w.in.(type) {
+	case *ssa.Store:
+		fr, ok := eng.AsField(x.Addr)
+		if !ok {
+			return false
+		}
+		field, stored = fr, x.Val
+	case *ssa.MapUpdate:
+		fr, ok := eng.LoadOfField(x.Map)
+		if !ok {
+			return false
+		}
+		field, mapKey, stored = fr, x.Key, x.Value
+	default:
+		return false
+	}
+	absent := eng.GuardedBy(fn, w.in.Block(), func(f eng.Fact) bool {
+		if mapKey == nil {
+			op, x, y, ok := f.Cmp()
+			if !ok || !eng.IsNilConst(y) || op != token.EQL {
+				return false
+			}
+			fr, ok := eng.LoadOfField(x)
+			return ok && fr.Field == field.Field && fr.Struct == field.Struct
+		}
+		ex, ok := f.Cond.(*ssa.Extract)
+		if !ok || f.Pos || ex.Index != 1 {
+			return false
+		}
+		lk, ok := ex.Tuple.(*ssa.Lookup)
+		if !ok || !lk.CommaOk {
+			return false
+		}
+		fr, ok := eng.LoadOfField(lk.X)
+		return ok && fr.Field == field.Field && fr.Struct == field.Struct && eng.SameValue(lk.Index, mapKey)
+	})
+	if !absent {
+		return false
+	}
+	// the function returns what it stored (or reads it back from the field)
+	for _, r := range eng.Returns(fn) {
+		for _, res := range r.Results {
+			if res == stored {
+				return true
+			}
+			if fr, ok := eng.LoadOfField(res); ok && mapKey == nil && fr.Field == field.Field && fr.Struct == field.Struct {
+				return true
+			}
+			if ph, ok := res.(*ssa.Phi); ok {
+				for _, e := range ph.Edges {
+					if e == stored {
+						return true
+					}
+				}
+			}
+		}
+	}
+	return false
 }
